@@ -18,7 +18,7 @@
 #include "dv_record.h"
 
 enum { T_TIMER, T_DATA, T_READ, T_WRITE, T_SIGNAL, T_COUNT };
-enum { S_PRE, S_POST, S_HANDLER, S_TQITEM, S_THREAD, S_TWICE, S_CAW, S_CAW_PRE, S_CAW2, S_HANGUP, S_SUSPENDED, S_COUNT };
+enum { S_PRE, S_POST, S_HANDLER, S_TQITEM, S_THREAD, S_TWICE, S_CAW, S_CAW_PRE, S_CAW2, S_HANGUP, S_SUSPENDED, S_REGH, S_COUNT };
 // user event codes (a): API calls
 enum { A_CANCEL = 1, A_CAW = 2, A_ACTIVATE = 3, A_RELEASE = 4, A_RESUME = 5 };
 // cancel contexts (b)
@@ -145,6 +145,8 @@ static void ch_handler(void *ctx) {
 	sem_post(&r->done);
 }
 static void tq_item(void *ctx) { do_cancel((round_t *)ctx, CX_TQITEM); }
+// registration handler (runs on the target queue once the source is installed): lets events accumulate, then cancels
+static void reg_handler(void *ctx) { round_t *r = (round_t *)ctx; usleep((useconds_t)(200 + rr(r) % 800)); do_cancel(r, CX_TQITEM); }
 static void noop(void *ctx) { (void)ctx; }
 
 static void *feeder(void *a) {
@@ -201,6 +203,7 @@ static void run_round(round_t *r) {
 	dispatch_set_context(ds, r);
 	dispatch_source_set_event_handler_f(ds, ev_handler);
 	if (r->has_ch) dispatch_source_set_cancel_handler_f(ds, ch_handler);
+	if (r->scen == S_REGH) dispatch_source_set_registration_handler_f(ds, reg_handler);
 
 	pthread_t th[2]; canc_t ca[2]; int nth = 0;
 	if (r->scen == S_PRE) { do_cancel(r, CX_THREAD); if (rr(r) & 1) do_cancel(r, CX_THREAD); }
